@@ -161,19 +161,31 @@ func c01OperatorHistory(c *Ctx) {
 				c.Violate("op-error", detail(), "duplicate failed on well-formed genome: %v", err)
 				return
 			}
-			ok, err := f.applyMutation(op, d, r)
-			record(fmt.Sprintf("%s->%v", op, ok))
-			if err != nil {
-				c.Violate("op-error", detail(), "%s failed on well-formed genome: %v", op, err)
-				return
+			// sometimes a chain of mutators works on the same genome object, the innovation record kept (add-link, toggle,
+			// add-link ... on one genome within one generation)
+			chain := 1
+			if r.Intn(4) == 0 {
+				chain = 2 + r.Intn(4)
+				c.Count("histories.in_place_chains", 1)
 			}
-			if ok {
-				c.Count("op."+op.String()+".ok", 1)
-			} else {
-				c.Count("op."+op.String()+".false", 1)
-			}
-			if !c01Check(c, d, f.IO, "result of "+op.String(), detail) {
-				return
+			for k := 0; k < chain; k++ {
+				if k > 0 {
+					op = pick(r, opAddLink, opAddLink, opToggleEnable, opToggleEnable, opReEnable, opAddNode, opConnectSensors, opLinkWeights)
+				}
+				ok, err := f.applyMutation(op, d, r)
+				record(fmt.Sprintf("%s->%v", op, ok))
+				if err != nil {
+					c.Violate("op-error", detail(), "%s failed on well-formed genome: %v", op, err)
+					return
+				}
+				if ok {
+					c.Count("op."+op.String()+".ok", 1)
+				} else {
+					c.Count("op."+op.String()+".false", 1)
+				}
+				if !c01Check(c, d, f.IO, "result of "+op.String(), detail) {
+					return
+				}
 			}
 			f.add(d, r)
 		}
